@@ -35,7 +35,7 @@ def rand_features(r, n):
             attrs.append(("Alias", ["al%d" % i, "al%d_2" % i]))
         if r.random() < 0.3:
             attrs.append(("gene_id", ["g%d" % r.randrange(0, 3)]))
-        if r.random() < 0.1:
+        if r.random() < 0.2:
             attrs.append(("flag", []))
         r.shuffle(attrs)
         attrs.sort(key=lambda kv: not kv[1])        # a valueless flag first would switch the line to the 'key value' style
@@ -53,7 +53,7 @@ def lines_of(feats):
 
 
 def rand_idspec(r):
-    k = r.randrange(9)
+    k = r.randrange(10)
     A = lambda name: ("a", name)
     C = lambda name: ("c", name)
     if k == 0:
@@ -76,6 +76,9 @@ def rand_idspec(r):
         return dbside.IdSpec("D", table=t)
     if k == 7:
         return dbside.IdSpec("L", [A("missing"), C("auto")])
+    if k == 8:
+        # a listed attribute that is present WITHOUT a value (a flag) is not usable: the next one decides
+        return dbside.IdSpec("L", [A("flag"), A(r.choice(["ID", "Name"]))])
     return dbside.IdSpec("L", [A("Name"), A("ID")])
 
 
